@@ -36,33 +36,43 @@ EXCLUDE = set(runlayer.WP_IDS) | {"checkersReport"}
 
 
 def mc_configs(tier):
+    """(mode, scenario, jobs, bug, crash, expect_ok)"""
     cfgs = []
     for mode in ("thread", "process"):
-        for sc in (1, 2, 3):
+        for sc in (1, 2, 3, 4):
             for nj in (2, 3):
                 if tier == "quick" and (nj == 3 or sc == 2):
                     continue
-                cfgs.append((mode, sc, nj))
+                cfgs.append((mode, sc, nj, "none", False, True))
+    # non-vacuity: a driver that does not send back the state of consulted non-inline suppressions must be caught
+    cfgs.append(("process", 4, 2, "dropSupprSync", False, False))
+    # C21 on the design: a worker of f2 may die at any point
+    cfgs.append(("process", 1, 2, "none", True, True))
+    if tier == "thorough":
+        cfgs.append(("process", 3, 2, "none", True, True))
+        cfgs.append(("process", 4, 3, "none", True, True))
     return cfgs
 
 
 def model_check(tier):
     states = trans = 0
     samples = []
-    for mode, sc, nj in mc_configs(tier):
+    for mode, sc, nj, bug, crash, expect_ok in mc_configs(tier):
         work = vlib.mktmp("mc")
         cfg = os.path.join(work, "RunMC.cfg")
         with open(cfg, "w") as f:
-            f.write("SPECIFICATION Spec\nCONSTANTS\n  PMode = \"%s\"\n  NJobs = %d\n  Scenario = %d\n  ExitCode = 1\n  EmitDup = FALSE\n"
-                    "INVARIANT ParallelEqSingle\nINVARIANT Invs\nCHECK_DEADLOCK TRUE\n" % (mode, nj, sc))
-        r = vlib.tlc("RunMC", cfg, workers=min(8, vlib.NCPU), timeout=1500, deadlock=True, xmx="12g")
+            f.write("SPECIFICATION Spec\nCONSTANTS\n  PMode = \"%s\"\n  NJobs = %d\n  Scenario = %d\n  ExitCode = 1\n  EmitDup = FALSE\n  Bug = \"%s\"\n  Crash = %s\n"
+                    "INVARIANT ParallelEqSingle\nINVARIANT Contained\nINVARIANT Invs\nCHECK_DEADLOCK TRUE\n" % (mode, nj, sc, bug, "TRUE" if crash else "FALSE"))
+        r = vlib.tlc("RunMC", cfg, workers=min(8, vlib.NCPU), timeout=2400, deadlock=True, xmx="12g")
         if r.error:
             raise vlib.InfraError("RunMC model failure mode=%s sc=%s nj=%s rc=%s\n%s" % (mode, sc, nj, r.rc, r.out[-2500:]))
-        if r.violation:
+        if expect_ok and r.violation:
             return None, {"mode": mode, "scenario": sc, "jobs": nj, "violated": r.violated_name(), "tlc": r.out[-4000:]}
+        if not expect_ok and r.ok:
+            raise vlib.InfraError("RunMC with the deliberately wrong driver '%s' satisfies every invariant: the properties would be vacuous" % bug)
         states += r.distinct
         trans += r.generated
-        samples.append({"model": "RunMC", "mode": mode, "scenario": sc, "jobs": nj, "distinct": r.distinct, "depth": r.depth})
+        samples.append({"model": "RunMC", "mode": mode, "scenario": sc, "jobs": nj, "bug": bug, "crash": crash, "distinct": r.distinct, "depth": r.depth, "holds": r.ok})
     return (states, trans, samples), None
 
 
